@@ -57,6 +57,13 @@ MUTATIONS: list[tuple[str, str, str, str, list[str]]] = [
      "        for inverter_ids, excess in excess_reserved.items():\n            distributed_power += excess\n"
      "        for deficit in deficits.values():\n            if deficit < -0.1:\n                distributed_power += deficit\n",
      ["C01"]),
+    ("c01-manager-success-reports-whole-request", BM, "                succeeded_power=Power.from_watts(distributed_power_value),\n                succeeded_components=succeed_batteries,\n                excess_power=Power.from_watts(distribution.remaining_power),",
+     "                succeeded_power=request.power,\n                succeeded_components=succeed_batteries,\n                excess_power=Power.from_watts(distribution.remaining_power),", ["C01", "C15"]),
+    ("c01-revert-enforced-exclusion-aggregation", BM,
+     "            exclusion_upper=sum(\n                max(\n                    battery.power_bounds.exclusion_upper,\n                    sum(\n                        inverter.active_power_exclusion_upper_bound\n                        for inverter in inverters\n                    ),\n                )\n                for battery, inverters in pairs_data\n            ),",
+     "            exclusion_upper=max(\n                sum(battery.power_bounds.exclusion_upper for battery, _ in pairs_data),\n                sum(\n                    inverter.active_power_exclusion_upper_bound\n                    for _, inverters in pairs_data\n                    for inverter in inverters\n                ),\n            ),", ["C02"]),
+    ("c02-manager-skips-zero-setpoints-of-other-sign", BM, "        distributed_power_value = (\n            request.power.as_watts() - distribution.remaining_power\n        )",
+     "        distributed_power_value = (\n            request.power.as_watts() - distribution.remaining_power\n        )\n        distribution.distribution = {k: (v if abs(v) > 60.0 or v == 0.0 else 60.0 * (1 if v > 0 else -1)) for k, v in distribution.distribution.items()}", ["C01", "C02"]),
     ("c02-split-ignores-incl", ALG, "new_power = min(incl_bounds[inverter_id], remaining_power)", "new_power = remaining_power",
      ["C02"]),
     ("c02-no-battery-clip-of-inverter-incl", ALG,
